@@ -198,6 +198,17 @@ MUTATING_FORMS = {
 }
 
 
+# forms that compute a new value (as opposed to selecting one of their
+# operands, like indexing, `if`, `and`/`or`, calls and member access)
+PRODUCING = ("bin +", "bin -", "bin *", "bin /", "bin %", "slice",
+             "self add", "s plain", "s#", "sprintf", "arith3", "neg",
+             "list spread", "lc", "sc", "mc", "string of")
+
+
+def produces(fname):
+    return fname.startswith(PRODUCING) and fname != "string of"
+
+
 def explore_forms(chunk):
     """every syntactic form of the C13 catalogue x pool^holes with the
     operands snapshotted before and after: reading constructs (operators,
@@ -240,13 +251,24 @@ def explore_forms(chunk):
             core.set_fuel(30000, 30000)
             core.arm(10.0)
             try:
-                core.outcome_raw(lambda: node.evaluate(env))
+                o = core.outcome_raw(lambda: node.evaluate(env))
             finally:
                 core.disarm()
                 core.set_fuel(10 ** 12, 10 ** 12)
             agg.count("steps")
             after = [snapshot(a) for a in args]
             agg.cls(("form", fname))
+            if produces(fname) and o[0] == "value" and (
+                    is_container(o[1]) or
+                    isinstance(o[1], core.ckl.values.ValueString)):
+                for k, a in enumerate(args):
+                    if o[1] is a:
+                        agg.violation(
+                            {"what": "form-result-is-operand", "form": fname},
+                            {"kind": "form", "form": fname, "src": src,
+                             "args": list(t)},
+                            "a value of its own", "operand %d itself" % k,
+                            size=len(t) * 100 + sum(len(x) for x in t))
             for k, (b, a) in enumerate(zip(before, after)):
                 if b != a:
                     agg.violation(
